@@ -81,6 +81,7 @@ THEOREMS = [
     "Verif.C07.visible_frames_resolve",
     "Verif.C07.define_tether_calibrated",
     "Verif.C07.ranges_legacy_eq",
+    "Verif.C07.good_runOps",
 ]
 RULE = (
     "corpus (F2 inputs) + exhaustive small scope on real TIFF stacks of n<=6 frames of 4x5 pixels: every slice with "
@@ -630,7 +631,9 @@ def impl(case):
         return [impl_beads(case["spec"], case["prog"])]
     if k == "prog":
         if wants_image(case):
-            return [impl_prog(case["spec"], case["prog"]), impl_image(case["spec"], case["prog"])]
+            first = impl_prog(case["spec"], case["prog"])
+            # third op (c07.ops: the program through the typed Stack.runOps): frames and ROI of the same observation
+            return [first, impl_image(case["spec"], case["prog"]), " ".join(first.split(" ")[:3]) if first.startswith("ok ") else first]
         return [impl_prog(case["spec"], case["prog"])]
     if k == "commute":
         return [impl_prog(case["spec"], case["prog"]), impl_prog(case["spec"], case["prog2"])]
@@ -706,7 +709,8 @@ def ops(case):
         if is_kymo(case["prog"]):
             return [kymo_line(case["spec"], case["prog"])]
         if wants_image(case):
-            return [run_line(case["spec"], case["prog"]), image_line(case["spec"], case["prog"])]
+            rl = run_line(case["spec"], case["prog"]).split(" ")
+            return [" ".join(rl), image_line(case["spec"], case["prog"]), " ".join(["c07.ops"] + rl[1:6] + rl[7:])]
         return [run_line(case["spec"], case["prog"])]
     if k == "commute":
         return [run_line(case["spec"], case["prog"]), run_line(case["spec"], case["prog2"])]
@@ -883,8 +887,8 @@ def agree(case, i, ia, ma):
     if case["op"] in ("prog", "commute"):
         if case["op"] == "prog" and is_kymo(case["prog"]):
             return agree_kymo(case, ia, ma)
-        if case["op"] == "prog" and i == 1:
-            return ia == ma  # c07.image: pixel values (or the error) literally
+        if case["op"] == "prog" and i >= 1:
+            return ia == ma  # c07.image: pixel values (or the error) literally; c07.ops: frames and ROI (or the error)
         if not ma.startswith("ok "):
             return ia == ma
         mt = ma.split(" ")
@@ -1196,7 +1200,7 @@ def oracle(case, ia):
         return oracle_beads(case["spec"], case["prog"], ia[0])
     if k == "prog":
         r = oracle_prog(case["spec"], case["prog"], ia[0])
-        if r is None and len(ia) == 2:
+        if r is None and len(ia) >= 2:
             r = oracle_image(case["spec"], case["prog"], ia[1])
         return r
     if k == "commute":
@@ -1985,7 +1989,7 @@ def extra_coverage(results):
     image_cases, kymo_branches = {}, {}
     for r in results:
         c = r["case"]
-        if c["op"] == "prog" and len(r["impl"]) == 2:
+        if c["op"] == "prog" and len(r["impl"]) >= 2:
             key = c["stream"] + (" (pixels)" if r["impl"][1].startswith("image ") else " (raises)")
             image_cases[key] = image_cases.get(key, 0) + 1
         if c["op"] == "prog" and is_kymo(c["prog"]):
